@@ -84,7 +84,9 @@ fn find_operator(expr: &str, operators: &[char]) -> Option<usize> {
     let mut paren_depth = 0;
     let mut last_pos = None;
 
-    for (i, ch) in expr.chars().enumerate() {
+    // `char_indices` yields byte offsets: the callers slice `expr` at the returned position,
+    // and a character count is not a valid slice index once a multi-byte character precedes it.
+    for (i, ch) in expr.char_indices() {
         match ch {
             '(' => paren_depth += 1,
             ')' => paren_depth -= 1,
